@@ -14,7 +14,7 @@ ENGINE = 'E1'
 LEVEL = 'exploration'
 RULE = (
     'One case = one generated cycling workflow (2-6 tasks, 1-3 recurrences, '
-    'AND/OR/parenthesised triggers, offsets, custom/optional outputs, retries; a quarter of the cases with a task family and family triggers)'
+    'AND/OR/parenthesised triggers, offsets, custom/optional outputs, retries; a quarter of the cases with a task family and family triggers, a quarter in date-time cycling)'
     ' + an outcome plan in which every finished task is complete + one seeded'
     ' delivery schedule (delays, duplicates, cross-job reordering; odd seeds '
     'add message loss recovered by polling), run through the real scheduler. '
@@ -184,6 +184,9 @@ def run(params):
         # a quarter of the cases: task families and family triggers
         # (FAM:succeed-all / succeed-any / start-all)
         knobs = {'p_family': 0.9, 'n_tasks': (3, 6)}
+    elif knobs is None and seed % 4 == 2:
+        # a quarter of the cases: date-time cycling (PT6H units)
+        knobs = {'datetime': 1.0}
     case = Case(seed, knobs=knobs, rates=rates,
                 policy='complete', gkw=swarm_gkw(rng))
     case.choices = params.get('choices')
